@@ -39,8 +39,7 @@ def convert(ex, ins):
         ex.vals[ins['n']] = V(x.term, 'Int', tts)
         return
     if fs == 'Int' and ts in ('F64', 'F32'):
-        e, m = (11, 53) if ts == 'F64' else (8, 24)
-        ex.setv(ins, V('((_ to_fp %d %d) RNE (to_real %s))' % (e, m, x.term), ts, tts))
+        ex.setv(ins, V(i2f_term(vc, x.term, ts), ts, tts))
         return
     if fs in ('F64', 'F32') and ts == 'Int':
         tk = vc.int_kind(tts)
@@ -87,16 +86,26 @@ def convert(ex, ins):
     raise Unsupported('conversion %s -> %s' % (fts, tts))
 
 
+def i2f_term(vc, x, ts):
+    """integer -> float conversion: literal for constants, otherwise the (deterministic, total) conversion
+    function is left uninterpreted: mixed Int/Real/FP reasoning is out of the solvers' reach"""
+    import re as _re
+    m = _re.match(r'^(?:(\d+)|\(- (\d+)\))$', x)
+    if m:
+        from .exec import fp_lit
+        n = int(m.group(1)) if m.group(1) else -int(m.group(2))
+        return fp_lit(float(n).hex(), 64 if ts == 'F64' else 32)
+    f = vc.ufun('conv.i2f.' + ts, ['Int'], ts)
+    return '(%s %s)' % (f, x)
+
+
 def f2i_term(vc, x, fs, tk):
-    """Go float -> integer conversion: truncation toward zero when the value fits, otherwise an
-    unspecified (implementation-defined) value"""
-    lo, hi = INT_RANGES[tk]
+    """Go float -> integer conversion (truncation toward zero when the value fits, implementation-defined
+    otherwise): a deterministic total function, left uninterpreted - the same symbol in code and specification
+    (mixed FP/Real/Int reasoning is out of the solvers' reach within the quick timeout)"""
     tk = {'int': 'int64', 'uint': 'uint64', 'uintptr': 'uint64'}.get(tk, tk)
-    r = '(fp.to_real %s)' % x
-    tr = '(ite (>= %s 0.0) (to_int %s) (- (to_int (- %s))))' % (r, r, r)
     u = vc.ufun('conv.f2i.' + fs + '.' + tk, [fs], 'Int')
-    fin = and_(not_('(fp.isNaN %s)' % x), not_('(fp.isInfinite %s)' % x))
-    return '(ite (and %s (<= %s %s) (<= %s %s)) %s (%s %s))' % (fin, num(lo), tr, tr, num(hi), tr, u, x)
+    return '(%s %s)' % (u, x)
 
 
 def need_fromrune(vc):
@@ -441,7 +450,7 @@ for _n, _m in [('_TBooleanConverter', 'ToBoolean'), ('_TDateTimeConverter', 'ToD
                ('_TDurationConverter', 'ToDuration'), ('_TFloatConverter', 'ToFloat'), ('_TIntegerConverter', 'ToInteger'),
                ('_TLongConverter', 'ToLong'), ('_TStringConverter', 'ToString')]:
     pure('(*%s%s).%s' % (CONV, _n, _m), skip_recv=True)
-for _n in ['math.Acos', 'math.Asin', 'math.Atan', 'math.Cos', 'math.Exp', 'math.Log', 'math.Log10', 'math.Sin', 'math.Sqrt', 'math.Tan',
+for _n in ['math.Pow', 'math.Acos', 'math.Asin', 'math.Atan', 'math.Cos', 'math.Exp', 'math.Log', 'math.Log10', 'math.Sin', 'math.Sqrt', 'math.Tan',
            'strconv.Itoa', 'strings.ToLower', 'strings.ToUpper', 'strings.Trim', 'strings.Contains', 'time.Unix', 'time.Date',
            '(time.Time).After', '(time.Time).Before', '(time.Time).Equal', '(time.Time).Sub', '(time.Time).Unix', '(time.Time).Weekday']:
     pure(_n)
